@@ -134,7 +134,23 @@ func main() {
 			e.Strs("rotateEvents", events(cl, fd.Body, func(s string) bool { return !strings.Contains(s, "metrics") }), "Cleaner.rotate")
 		})
 		fn(cl, "Cleaner", "AddBucket", "addBucketEvents", func(fd *ast.FuncDecl) {
-			e.Strs("addBucketEvents", events(cl, fd.Body, func(s string) bool { return !strings.Contains(s, "metrics") }), "Cleaner.AddBucket")
+			evs := events(cl, fd.Body, func(s string) bool { return !strings.Contains(s, "metrics") })
+			e.Strs("addBucketEvents", evs, "Cleaner.AddBucket")
+			lock, unlock, set, app := -1, -1, -1, -1
+			for i, x := range evs {
+				switch {
+				case x == "call c.mu.Lock":
+					lock = i
+				case x == "call c.mu.Unlock":
+					unlock = i
+				case x == "call b.SetGeneration":
+					set = i
+				case strings.HasPrefix(x, "c.buckets = append("):
+					app = i
+				}
+			}
+			e.Bool("addBucketAtomic", lock >= 0 && lock < set && set < unlock && lock < app && app < unlock && strings.Contains(cl.Render(fd.Body), "b.SetGeneration(c.lastGen)"),
+				"Cleaner.AddBucket: b.SetGeneration(c.lastGen) and the append to c.buckets are both between c.mu.Lock and c.mu.Unlock")
 		})
 		fn(cl, "Cleaner", "CleanEmptyGenerations", "cleanEmptyConds", func(fd *ast.FuncDecl) {
 			e.Strs("cleanEmptyConds", conds(cl, fd.Body), "Cleaner.CleanEmptyGenerations: loop bound and keep condition")
